@@ -89,6 +89,15 @@ type caseT struct {
 	// the implications of the statement are judged here (a failing vector must not pass; whatever chain the
 	// validator sees is complete): an implementation may legitimately give up with the context's error.
 	Cancel int `json:"cancel"`
+	// Shape: the Go value the caller implements the validator / the deprecated client with (index into shapes,
+	// shapes.go): 0 a pointer to a struct (every case before round 5); a struct value carrying state, a func adapter,
+	// a non-nil map; and the STATELESS values whose behaviour lives in package-level state - a pointer to a field-less
+	// struct, and the values whose representation is all zero bits: field-less struct, struct with all fields zero,
+	// zero integer, zero array, empty string, false. The statement speaks of the validator "the caller supplied": what
+	// kind of value implements the interface is the caller's business, the supplied validator is the one consulted
+	// and its answers decide. (Interfaces holding a NIL pointer / nil map whose methods are nil-safe are run too, but
+	// only recorded: whether that counts as supplied is the implementation's choice.)
+	Shape int `json:"validator_shape"`
 }
 
 const (
@@ -264,14 +273,25 @@ func (w *world) run(r *hx.Run, c caseT) {
 	primary := &mocks.Validator{Results: script}
 	other := &mocks.Validator{Results: script}
 	opts := verifier.VerifierOptions{}
+	if c.Shape < 0 || c.Shape >= len(shapes) {
+		r.Infra("case outside the enumeration: %+v", c)
+		return
+	}
+	shape := shapes[c.Shape]
 	switch c.Iface {
 	case 0:
-		opts.RevocationCodeSigningValidator = primary
+		sv, _, release := shaped(c.Shape, primary, nil)
+		defer release()
+		opts.RevocationCodeSigningValidator = sv
 	case 1:
-		opts.RevocationClient = primary.Client()
+		_, sc, release := shaped(c.Shape, nil, primary.Client())
+		defer release()
+		opts.RevocationClient = sc
 	case 2:
-		opts.RevocationCodeSigningValidator = primary
-		opts.RevocationClient = other.Client()
+		sv, sc, release := shaped(c.Shape, primary, other.Client())
+		defer release()
+		opts.RevocationCodeSigningValidator = sv
+		opts.RevocationClient = sc
 	}
 	lv, ok := w.levels[levelKey(c.Base, c.SibLog, c.Action)]
 	if !ok {
@@ -300,6 +320,10 @@ func (w *world) run(r *hx.Run, c caseT) {
 		v, err = verifier.NewWithOptions(doc, ts, pm, opts)
 	} else {
 		v, err = verifier.NewVerifierWithOptions(ts, opts)
+	}
+	if err != nil && !shape.judged {
+		r.Outcome("recorded:shape/" + shape.name + "/refused-by-the-constructor")
+		return
 	}
 	if err != nil {
 		r.Infra("verifier: %v", err)
@@ -339,13 +363,23 @@ func (w *world) run(r *hx.Run, c caseT) {
 		if c.VErr && c.ErrKind != 0 {
 			key += ":typed-validator-error"
 		}
+		if c.Shape != 0 && shape.zero {
+			key += ":stateless-validator-value"
+		} else if c.Shape != 0 {
+			key += ":validator-value-of-another-kind"
+		}
 		switch c.Cancel {
 		case 1:
 			key += ":context-already-done"
 		case 2, 3:
 			key += ":context-done-during-validator-call"
 		}
-		r.Violation(key, fmt.Sprintf("%s | n=%d vector=%s method=%v servers=%d validatorError=%v(kind %d) iface=%d action=%s scheme=%s level=%s failingSiblings=%d cancel=%d", what, c.N, c.vecString(), methods[c.Method], c.Servers, c.VErr, c.ErrKind, c.Iface, c.Action, scheme, lv, c.SibFail, c.Cancel), c)
+		r.Violation(key, fmt.Sprintf("%s | n=%d vector=%s method=%v servers=%d validatorError=%v(kind %d) iface=%d action=%s scheme=%s level=%s failingSiblings=%d cancel=%d validatorShape=%s", what, c.N, c.vecString(), methods[c.Method], c.Servers, c.VErr, c.ErrKind, c.Iface, c.Action, scheme, lv, c.SibFail, c.Cancel, shape.name), c)
+	}
+	if !shape.judged {
+		// an interface holding a nil pointer / nil map: recorded only
+		r.Outcome(fmt.Sprintf("recorded:shape/%s/consulted=%v", shape.name, len(primary.Calls)+len(other.Calls) > 0))
+		return
 	}
 	if outcome == nil && verr == nil {
 		bad("nil-outcome", "Verify returned neither an outcome nor an error")
@@ -533,8 +567,11 @@ func (w *world) run(r *hx.Run, c caseT) {
 	if c.Cancel > 0 {
 		r.Outcome(fmt.Sprintf("context-done(%d):%s:%s", c.Cancel, c.Action, class))
 	}
+	if c.Shape != 0 {
+		r.Outcome(fmt.Sprintf("validator-shape(%s):%s:%s", shape.name, c.Action, class))
+	}
 	if !pass {
-		r.Nontrivial(fmt.Sprintf("%d|%v|%d|%d|%v|%d|%s|%d|%d|%d.%d.%d|%d|%d", c.N, c.Vec, c.Method, c.Servers, c.VErr, c.Iface, c.Action, c.Scheme, c.Format, c.Base, c.SibLog, c.SibFail, c.ErrKind, c.Cancel))
+		r.Nontrivial(fmt.Sprintf("%d|%v|%d|%d|%v|%d|%s|%d|%d|%d.%d.%d|%d|%d|%d", c.N, c.Vec, c.Method, c.Servers, c.VErr, c.Iface, c.Action, c.Scheme, c.Format, c.Base, c.SibLog, c.SibFail, c.ErrKind, c.Cancel, c.Shape))
 	}
 }
 
@@ -568,8 +605,8 @@ func namedIn(msg string, c *x509.Certificate) bool {
 
 func main() {
 	r := hx.New("C05")
-	r.Rule = "all result vectors over {OK, NonRevokable, Unknown, Revoked, undefined}^n (n=1..4, leaf first) crossed with method annotation, per-server errors, validator error (5 kinds), validator interface, action, scheme and format; again under every action combination of the other validations from every named base level and with every subset of the logged other validations failing on the signature; again with the caller's context done before Verify / during the validator call; one real verifier.Verify per case; non-trivial = distinct cases whose aggregated result is not a pass"
-	r.Assumptions = []string{"validator answers with exactly one result per certificate of the chain (vectors of other lengths are outside the quantifier)", "scripted validator from lib/mocks"}
+	r.Rule = "all result vectors over {OK, NonRevokable, Unknown, Revoked, undefined}^n (n=1..4, leaf first) crossed with method annotation, per-server errors, validator error (5 kinds), validator interface, action, scheme and format; again under every action combination of the other validations from every named base level and with every subset of the logged other validations failing on the signature; again with the caller's context done before Verify / during the validator call; again with the supplied validator / client being every kind of Go value that can implement the interface (pointer, struct with state, func adapter, map, and the stateless values: pointer to a field-less struct and the all-zero-bits values field-less struct, all-fields-zero struct, zero integer, zero array, empty string, false) through both interfaces and both constructors; one real verifier.Verify per case; non-trivial = distinct cases whose aggregated result is not a pass"
+	r.Assumptions = []string{"validator answers with exactly one result per certificate of the chain (vectors of other lengths are outside the quantifier)", "scripted validator from lib/mocks", "the kind of Go value the caller implements the validator / client with is the caller's choice: any non-nil interface value whose dynamic value is not itself a nil pointer / nil map is 'the validator the caller supplied' (nil pointers and nil maps with nil-safe methods are run and recorded, never judged)", "stateless validator values find their script in a package-level slot selected by their type (16 instantiations, handed to the workers through a pool)"}
 	w := &world{chains: map[int]*pki.Chain{}, emptyChains: map[int]*pki.Chain{}, lateChains: map[int]*pki.Chain{}, levels: map[string]vt.Level{}, envs: map[string][]byte{}, signTime: time.Now().Add(-48 * time.Hour).Truncate(time.Second).UTC()}
 	w.desc = ocispec.Descriptor{MediaType: "application/vnd.oci.image.manifest.v1+json", Digest: digest.FromString("c05"), Size: 3}
 	// every way of writing every enforcement map (vt.Levels: 3 named bases x minimal override), by base, the other
@@ -644,6 +681,7 @@ func main() {
 		r.Finish()
 	}
 	var cases []caseT
+	shapeCases := 0
 	maxAnnot := 3
 	if r.Thorough() {
 		maxAnnot = 4
@@ -781,8 +819,65 @@ func main() {
 				}
 			}
 		}
+		// The shape of the supplied validator / client value (shapes.go): every kind of Go value that can implement
+		// the interface, stateful and stateless, zero-valued or not, through both interfaces (and both set), both
+		// constructors, both schemes and formats. quick: all vectors for n <= 2, for n = 3, 4 the all-OK vector and
+		// every vector with exactly one certificate not OK, plus the validator error; constructor and format rotate.
+		// thorough: all vectors for n <= 3, constructor and format in full. The shapes that are only recorded
+		// (nil pointer / nil map) run for n <= 2.
+		{
+			var vs [][]int
+			for _, vec := range vecs {
+				dev := 0
+				for _, x := range vec {
+					if x != 0 {
+						dev++
+					}
+				}
+				if n <= 2 || (r.Thorough() && n == 3) || dev <= 1 {
+					vs = append(vs, vec)
+				}
+			}
+			vs = append(vs, nil) // nil: the validator error
+			for vi, vec := range vs {
+				for sh := 1; sh < len(shapes); sh++ {
+					if !shapes[sh].judged && n > 2 {
+						continue
+					}
+					for iface := 0; iface < 3; iface++ {
+						for ai, act := range []string{"enforce", "log"} {
+							for sc := 0; sc < 2; sc++ {
+								for ctor := 0; ctor < 2; ctor++ {
+									for f := 0; f < 2; f++ {
+										if !r.Thorough() && (ctor != (vi+sh+iface+ai+sc)%2 || f != (vi+sh+iface+ai+sc+ctor+n)%2) {
+											continue // quick: constructor and format rotate (deterministic)
+										}
+										c := caseT{N: n, Vec: vec, Iface: iface, Action: act, Scheme: sc, Format: f, Ctor: ctor, Shape: sh}
+										if vec == nil {
+											c.Vec, c.VErr = make([]int, n), true
+										}
+										cases = append(cases, c)
+										shapeCases++
+									}
+								}
+							}
+						}
+					}
+				}
+			}
+		}
 	}
 	r.Extra["cases"] = len(cases)
+	r.Extra["cases_over_validator_shapes"] = shapeCases
+	var shapeNames []string
+	for _, sh := range shapes {
+		n := sh.name
+		if !sh.judged {
+			n += "(recorded only)"
+		}
+		shapeNames = append(shapeNames, n)
+	}
+	r.Extra["validator_shapes"] = shapeNames
 	r.Parallel(len(cases), func(i int) {
 		w.run(r, cases[i])
 		if i%4001 == 0 {
